@@ -72,6 +72,9 @@ def classify_key(e, elem_arg=2):
         return (f, 0, "lossy", "key mixes values with %s" % e[1])
     if k == "path":
         return classify_key(e[1], elem_arg)
+    if k == "agg" and len(e) > 3 and e[1] == "adt" and str(e[3]).endswith("cmp::Reverse") and len(e[2]) == 1:
+        f, d, q, w = classify_key(e[2][0], elem_arg)      # std::cmp::Reverse(x): same key, opposite order
+        return (f, -d, q, w)
     return (None, 0, "unknown", "key expression %s" % show(e))
 
 
@@ -116,7 +119,8 @@ def sort_call_info(facts, body, du, t):
         return (m, None, 0, "unknown", "key is not a closure literal: %s" % show(ke))
     cb = facts.bodies[clos]
     cdu = DefUse(cb)
-    ret = expr_place(cdu, {"local": 0, "proj": []})
+    from ..mirq import inline_expr
+    ret = inline_expr(facts, expr_place(cdu, {"local": 0, "proj": []}))
     if m in ("sort_by", "sort_unstable_by"):
         f, d, q, w = classify_cmp(ret)
     else:
